@@ -120,6 +120,11 @@ impl RateLimit {
 		true
 	}
 
+	#[cfg(feature = "breard_r_acmed_verif")]
+	pub fn verif_state(&self) -> (&[(usize, Duration)], &[Instant]) {
+		(&self.limits, &self.query_log)
+	}
+
 	fn prune_log(&mut self) {
 		if let Some((_, max_limit)) = self.limits.first() {
 			if let Some(prune_date) = Instant::now().checked_sub(*max_limit) {
